@@ -45,6 +45,8 @@ type variant struct {
 	early     bool             // ENV starts when the first Fetch request was delivered and moves the partition of the OTHER broker onto that broker
 	order     string           // thread declaration order
 	pauseAt   int              // T2 starts after this many T1 polls returned
+	resumeAt  int              // T2 calls Resume only after this many T1 polls returned
+	t1Delay   time.Duration    // T1 works this long (virtual) before its first poll
 	envAt     int              // ENV starts after this many T1 polls returned
 	weight    float64
 }
@@ -384,6 +386,9 @@ func scenario(v *variant) *netctl.Scenario {
 					st.cond.Broadcast()
 					st.mu.Unlock()
 				}()
+				if v.t1Delay > 0 {
+					time.Sleep(v.t1Delay)
+				}
 				for i := 0; i < pollBudget && !st.complete(); i++ {
 					n := v.cycle[i%len(v.cycle)]
 					if n == 0 {
@@ -406,6 +411,7 @@ func scenario(v *variant) *netctl.Scenario {
 				st.seq++
 				st.pauseRet = st.seq
 				st.mu.Unlock()
+				st.waitPolls(v.resumeAt)
 				t.Step("resume-t0")
 				st.mu.Lock()
 				st.seq++
@@ -590,7 +596,8 @@ var variants = []*variant{
 	{name: "D-parts", cycle: []int{3, 1, 0}, starts: map[int32]int64{0: 2, 1: 6}, order: "ENV,T2,T1", pauseAt: 1, envAt: 1},
 	{name: "D-split", cycle: []int{1, 3, 0}, partBytes: 200, order: "T2,ENV,T1", pauseAt: 2, envAt: 1},
 	{name: "D-early", cycle: []int{1, 3, 0}, early: true, order: "ENV,T2,T1", pauseAt: 1},
-	{name: "D-early-rc", cycle: []int{3, 0, 1}, early: true, rc: true, order: "ENV,T1,T2", pauseAt: 1},
+	{name: "D-late", cycle: []int{3, 0, 1}, early: true, order: "ENV,T2,T1", pauseAt: 1, t1Delay: 100 * time.Millisecond},
+	{name: "D-pause0-rc", cycle: []int{1, 3, 0}, rc: true, order: "T2,ENV,T1", pauseAt: 0, resumeAt: 2, envAt: 1},
 	{name: "D-onesource", cycle: []int{1, 3, 0}, oneSource: true, order: "T2,ENV,T1", pauseAt: 1, envAt: 2},
 	{name: "D-prefer", cycle: []int{1, 3, 0}, prefer: true, order: "ENV,T2,T1", pauseAt: 1, envAt: 1},
 	{name: "D-move-idle", cycle: []int{1, 3, 0}, idleMove: true, order: "T2,ENV,T1", pauseAt: 1, envAt: 1, weight: 0.5},
